@@ -447,6 +447,87 @@ pub fn check_recipe(r: &Recipe, lim: Limits, stats: &mut Stats) -> Result<(), Fa
     Ok(())
 }
 
+// ---------------------------------------------------------------------------
+// Deep inputs: stack use must not grow with the input.  Each spec is checked on a thread with std's default
+// 2 MiB stack; the process running this is a child of the supervisor, so that a stack overflow (SIGSEGV /
+// SIGABRT) is attributed to one spec of one build.
+
+pub const DEEP_KINDS: [&str; 8] = [
+    "leading integer zeros, then 1",
+    "0. then fraction zeros, then 1",
+    "integer of nines",
+    "1e then exponent leading zeros, then 5",
+    "1. then trailing fraction zeros",
+    "0. then a fraction of threes",
+    "1e then an exponent of nines",
+    "-0 then leading zeros, a point, zeros, digits, e-, zeros, 7",
+];
+
+pub fn deep_input(kind: usize, n: usize) -> Vec<u8> {
+    let rep = |c: u8, k: usize| std::iter::repeat(c).take(k);
+    let mut v: Vec<u8> = Vec::with_capacity(n + 64);
+    match kind {
+        0 => {
+            v.extend(rep(b'0', n));
+            v.push(b'1');
+        }
+        1 => {
+            v.extend_from_slice(b"0.");
+            v.extend(rep(b'0', n));
+            v.push(b'1');
+        }
+        2 => v.extend(rep(b'9', n)),
+        3 => {
+            v.extend_from_slice(b"1e");
+            v.extend(rep(b'0', n));
+            v.push(b'5');
+        }
+        4 => {
+            v.extend_from_slice(b"1.");
+            v.extend(rep(b'0', n));
+        }
+        5 => {
+            v.extend_from_slice(b"0.");
+            v.extend(rep(b'3', n));
+        }
+        6 => {
+            v.extend_from_slice(b"1e");
+            v.extend(rep(b'9', n));
+        }
+        _ => {
+            v.extend_from_slice(b"-0");
+            v.extend(rep(b'0', n / 3));
+            v.push(b'.');
+            v.extend(rep(b'0', n / 3));
+            v.extend_from_slice(b"12345e-");
+            v.extend(rep(b'0', n / 3));
+            v.push(b'7');
+        }
+    }
+    v
+}
+
+/// Run every front-end copy on one deep input, on a 2 MiB thread.  Ok(()) / Err(message).
+pub fn deep_check(kind: usize, n: usize) -> Result<(), String> {
+    let input = deep_input(kind, n);
+    let h = std::thread::Builder::new()
+        .stack_size(2 << 20)
+        .spawn(move || -> Result<(), String> {
+            let mut st = Stats::default();
+            for front in FRONTS.iter() {
+                for fmt in [Fmt::F32, Fmt::F64] {
+                    check_front(front, fmt, &input, &mut st).map_err(|f| f.message)?;
+                }
+            }
+            Ok(())
+        })
+        .map_err(|e| e.to_string())?;
+    match h.join() {
+        Ok(r) => r,
+        Err(_) => Err("the deep-input thread panicked".into()),
+    }
+}
+
 pub fn run(ctx: &Ctx) -> i32 {
     let lim: Limits = ctx.tier.pick(Limits { long: 1_500, huge: 20_000 }, Limits { long: 10_000, huge: 100_000 });
     let mut rep = Report::new(
